@@ -116,6 +116,8 @@ class Scheduler:
         self.done = [False] * nworkers
         self.steps = [0] * nworkers
         self.idents = {}
+        self.where = [[] for _ in range(nworkers)]   # file of every step (baseline runs, when record_where is set)
+        self.record_where = not plan and free_yield is None
         self.trace = []          # (worker, local step, file:line) of every switch
         self.locations = set()   # distinct (file, line) seen as preemption points
         self.active = False
@@ -146,6 +148,8 @@ class Scheduler:
         self.fail_streak = 0
         k = self.steps[w]
         self.locations.add((code.co_filename[len(self.root):], line))
+        if self.record_where:
+            self.where[w].append(code.co_filename[len(self.root):])
         if self.free_yield is not None:
             if self.free_yield(w, k):
                 import time
